@@ -55,7 +55,7 @@ PROBES = ['pop_client', 'pop_server', 'pop_attrs', 'replies_reordered',
           'bad_reply_short_body', 'bad_reply_extra_body',
           'malformed_request', 'unsupported_request', 'errno_mapped',
           'v3', 'v4', 'v5', 'v6', 'realpath_without_control_byte',
-          'init_below_v3', 'time_before_1970']
+          'init_below_v3', 'time_before_1970', 'read_length_drawn']
 
 ERRNOS = ['ENOENT', 'EACCES', 'EEXIST', 'EROFS', 'ENOSPC', 'EDQUOT',
           'ENOTEMPTY', 'ENOTDIR', 'ENAMETOOLONG', 'ELOOP', 'EINVAL',
@@ -80,11 +80,13 @@ def expected_status(name, ver):
 REQ_KINDS = ['stat', 'lstat', 'open', 'opendir', 'realpath', 'mkdir',
              'remove', 'rmdir', 'rename', 'readlink', 'setstat', 'read_bad',
              'close_bad', 'fstat_bad', 'ext_unknown', 'type_unknown',
-             'statvfs', 'limits', 'realpath_bare']
+             'statvfs', 'limits', 'realpath_bare', 'read_len']
+READ_LENS = [0, 1, 6, 4 << 20, (4 << 20) + 1, 1 << 31, (1 << 32) - 1]
 LEGAL = {'stat': {W.ATTRS}, 'lstat': {W.ATTRS}, 'open': {W.HANDLE},
          'opendir': {W.HANDLE}, 'realpath': {W.NAME}, 'readlink': {W.NAME},
          'realpath_bare': {W.NAME},
-         'read_bad': {W.DATA}, 'fstat_bad': {W.ATTRS},
+         'read_bad': {W.DATA}, 'read_len': {W.DATA},
+         'fstat_bad': {W.ATTRS},
          'statvfs': {W.EXTENDED_REPLY}, 'limits': {W.EXTENDED_REPLY}}
 
 
@@ -121,6 +123,11 @@ def gen_plan(rng):
                                     'e:EACCES'] +
                                    ['e:' + e for e in ERRNOS]),
             })
+
+        for q in reqs:
+            if q['kind'] == 'read_len':
+                # a read of a drawn length through a handle opened for it
+                q.update(shape='valid', path='f2', len=rng.choice(READ_LENS))
 
         plan['reqs'] = reqs
         plan['pipeline'] = rng.chance(60)
@@ -180,7 +187,10 @@ def valid_plan(plan):
 
         if plan['pop'] == 'server':
             return all(r['kind'] in REQ_KINDS and
-                       r['shape'] in ('valid', 'truncate', 'extend')
+                       r['shape'] in ('valid', 'truncate', 'extend') and
+                       (r['kind'] != 'read_len' or
+                        (r['shape'] == 'valid' and r['path'] == 'f2' and
+                         0 <= r['len'] < 1 << 32))
                        for r in plan['reqs'])
 
         return isinstance(plan['fields'], dict)
@@ -332,6 +342,7 @@ class MemServer(asyncssh.SFTPServer):
     def __init__(self, chan, plan):
         super().__init__(chan)
         self.plan = plan
+        self.max_read = 0
 
     def _check(self, path):
         if b'e:' in path:
@@ -381,6 +392,7 @@ class MemServer(asyncssh.SFTPServer):
         return None
 
     def read(self, file_obj, offset, size):
+        self.max_read = max(self.max_read, size)
         return self.FILES.get(file_obj, b'')[offset:offset + size]
 
     def write(self, file_obj, offset, data):
@@ -480,12 +492,17 @@ def build_request(kind, path, ver):
 def run_server(world, plan):
     sim = world.sim
     ver = plan['version']
-    res = {'replies': {}, 'order': [], 'error': None, 'sent': []}
+    res = {'replies': {}, 'order': [], 'error': None, 'sent': [],
+           'srv': None}
+
+    def sftp_factory(chan):
+        res['srv'] = MemServer(chan, {'fields': None})
+        return res['srv']
 
     async def main():
         acc = await asyncssh.listen(
             '127.0.0.1', 22, server_factory=lambda: RecServer(world),
-            sftp_factory=lambda chan: MemServer(chan, {'fields': None}),
+            sftp_factory=sftp_factory,
             sftp_version=ver, **server_opts(encoding=None))
         conn = await asyncssh.connect('127.0.0.1', 22, **client_opts())
         w, r, _ = await conn.open_session(subsystem='sftp', encoding=None)
@@ -519,7 +536,29 @@ def run_server(world, plan):
             for q in plan['reqs'] + [{'kind': 'stat', 'shape': 'valid',
                                       'cut': 0, 'path': 'f2',
                                       'sentinel': True}]:
-                t, body = build_request(q['kind'], q['path'].encode(), ver)
+                if q['kind'] == 'read_len':
+                    # open the file first; the handle is in the reply
+                    t, body = build_request('open', b'f2', ver)
+                    rid += 1
+                    res['sent'].append((rid, {'kind': 'open', 'path': 'f2',
+                                              'shape': 'valid'}, t))
+                    raw.send(bytes([t]) + u32(rid) + body)
+
+                    while rid not in res['replies']:
+                        await read_reply()
+
+                    rep = res['replies'][rid][0]
+
+                    if rep[0] != W.HANDLE:
+                        continue
+
+                    t, body = W.READ, string(Reader(rep, 5).string()) + \
+                        u64(0) + u32(q['len'])
+                    sim.probes['read_length_drawn'] += 1
+                else:
+                    t, body = build_request(q['kind'], q['path'].encode(),
+                                            ver)
+
                 shape = q['shape']
 
                 if shape == 'truncate' and body:
@@ -536,9 +575,8 @@ def run_server(world, plan):
                 if not plan['pipeline']:
                     await read_reply()
 
-            if plan['pipeline']:
-                for _ in res['sent']:
-                    await read_reply()
+            while len(res['order']) < len(res['sent']):
+                await read_reply()
         except (asyncssh.Error, OSError, EOFError, Short,
                 asyncio.IncompleteReadError) as exc:
             res['error'] = exc
@@ -608,6 +646,16 @@ def run_server(world, plan):
                     '(legal at every version, v%d here) answered with '
                     'status %r instead of a name' % (ver, code),
                     sig='realpath')
+        elif kind == 'read_len':
+            data = Reader(p, 5).string() if rtype == W.DATA else None
+            want = b'twotwo'[:q['len']]
+
+            # (a read of no bytes may be answered with EOF or empty data)
+            if data != want and not (not want and rtype == W.STATUS):
+                world.violation(
+                    'read-reply', 'READ of %d bytes at offset 0 of a 6-byte '
+                    'file answered with %r (status %r), expected %r' %
+                    (q['len'], data, code, want), sig='read_len')
         elif q.get('sentinel'):
             ok = False
 
@@ -628,6 +676,19 @@ def run_server(world, plan):
             # a truncated body must not be served as if complete unless the
             # cut removed nothing the request needs (v6 tolerates extras)
             pass
+
+    from asyncssh.sftp import MAX_SFTP_READ_LEN
+
+    if res['srv'] is not None and res['srv'].max_read > MAX_SFTP_READ_LEN:
+        # one request of 30 bytes must not make the server ask its storage
+        # for (and buffer, and send as one reply) more than the maximum read
+        # length it announces itself (limits@openssh.com, the v5 / v6
+        # "supported" blocks)
+        world.violation(
+            'read-length-unbounded', 'a READ request made the server ask '
+            'the application for %d bytes in one read(); the maximum read '
+            'length it announces is %d' %
+            (res['srv'].max_read, MAX_SFTP_READ_LEN), sig='read_len')
 
     world.open_gate('done')
     world.run_phase()
